@@ -15,7 +15,10 @@ assignments to names / tuples of names / `a[i]` / `self.f` / `self.f[i]`, augmen
 to state-passing callbacks, list methods `append` / `extend` / `pop`, dict methods `get` / `pop` / `setdefault` /
 `items`, `len`, integer arithmetic and comparisons, `and` / `or` / `not`, conditional expressions, and a table of
 numpy idioms on 1-d integer arrays (`a[a == v]`, `np.count_nonzero`, `.argmax()`, `np.full_like`, `np.arange`,
-`np.where`, `np.unique`, `np.all`, `np.array(list)`, `np.asarray`, `.copy()`, `.item()`).
+`np.where`, `np.unique`, `np.all`, `np.array(list)`, `np.asarray`, `.copy()`, `.item()`); float scalars / arrays over a declared NUMERIC type
+parameter (`num_tparams`: `+ - *`, comparisons, `np.zeros/ones/full`), 2-d arrays as lists of rows (`m[i, j]`, `m[i, :] = …`, `m[:, j] = …`,
+`a[:, None]` broadcast against a 2-d array, `.shape`), 2-d masked arrays (`ma.array(…, mask=…)`, `.argmin()`, `np.unravel_index`), and the translation
+of a SEGMENT of a function body (`seg_from` / `seg_to`).
 """
 from __future__ import annotations
 
